@@ -90,6 +90,20 @@ func RunProperty(o Options) (int, error) {
 	if ex, ok := Extras[o.Prop]; ok {
 		ex(env, pr)
 	}
+	if l3State != nil && l3State.Guard != nil {
+		g := l3State.Guard
+		pr.Extra["template_condition_guard"] = map[string]any{
+			"note":                    "syntactic listing (text/template/parse), not a solver result: conditions on flags and list structure justify enumerating interface shapes; anything listed under outside_guard means the corpus argument does not cover that branch for all interfaces",
+			"conditions":              g.Conditions,
+			"outside_guard":           g.Outside,
+			"names_added_to_corpus":   g.Names,
+			"arities_added_to_corpus": g.Numbers,
+			"error":                   g.Err,
+		}
+		for _, c := range g.Outside {
+			fmt.Printf("INCONCLUSIVE property=%s template condition outside the shape guard (corpus cannot stand for all interfaces on this branch): %s\n", o.Prop, short(c, 200))
+		}
+	}
 	pr.Wall = time.Since(t0)
 	if err := env.WriteEvidence(pr); err != nil {
 		return 2, err
